@@ -36,7 +36,7 @@ func modelDiff(oldM, newM core.Model, poolLen int) []diffRec {
 }
 
 func genC06(t *rapid.T, tier string) PairCase {
-	c := genPair(t, tier, core.GenOpts{Caches: []string{"none", "none", "big", "arc4", "tiny2"}}, false)
+	c := genPair(t, tier, core.GenOpts{Caches: []string{"none", "none", "big", "arc4", "tiny2"}, BigOneIn: 12}, false)
 	if rapid.IntRange(0, 9).Draw(t, "oldnil") == 0 {
 		c.OldNil = true
 	}
